@@ -97,6 +97,15 @@ class Socket:
                 self.logger.warning(msg)
                 if address_family_index == len(socket_address_families):
                     raise ScrapliConnectionNotOpened(msg) from exc
+            except OSError as exc:
+                # no route to host, network unreachable, connection reset, etc.
+                msg = (
+                    f"failed to open socket to {self.host} on port {self.port} for address family "
+                    f"{address_family.name}: {exc!r}"
+                )
+                self.logger.warning(msg)
+                if address_family_index == len(socket_address_families):
+                    raise ScrapliConnectionNotOpened(msg) from exc
             else:
                 return
 
